@@ -567,6 +567,31 @@ Definition verify_decide (k : keykind) (name : bytes) (siglen : N) : res unit :=
       end
   end.
 
+(* ------------------------------------------------------------------ ECDH-ES: header -> KDF plumbing *)
+(* ecDecrypterSigner.decryptKey: which header member feeds which field of the Concat KDF.
+   The merged header's decoded values: alg, enc, apu, apv (absent = empty). *)
+Record ecdh_hdr := { eh_alg : bytes; eh_enc : bytes; eh_apu : bytes; eh_apv : bytes }.
+
+Definition name_ECDH_ES := bytes_of_string jose_ECDH_ES_str.
+Definition name_ECDH_ES_A128KW := bytes_of_string jose_ECDH_ES_A128KW_str.
+Definition name_ECDH_ES_A192KW := bytes_of_string jose_ECDH_ES_A192KW_str.
+Definition name_ECDH_ES_A256KW := bytes_of_string jose_ECDH_ES_A256KW_str.
+
+(* (AlgorithmID, PartyUInfo, PartyVInfo, key size in bytes): direct agreement derives the
+   content key, named by enc and of the content cipher's size; with key wrapping the KDF derives
+   the key-encryption key, named by alg and of 16/24/32 bytes.  apu -> PartyUInfo, apv -> PartyVInfo. *)
+Definition ecdh_derive_input (h : ecdh_hdr) (enc_keysize : N) : res (bytes * bytes * bytes * N) :=
+  if bytes_eqb (eh_alg h) name_ECDH_ES then Ok (eh_enc h, eh_apu h, eh_apv h, enc_keysize)
+  else if bytes_eqb (eh_alg h) name_ECDH_ES_A128KW then Ok (eh_alg h, eh_apu h, eh_apv h, 16)
+  else if bytes_eqb (eh_alg h) name_ECDH_ES_A192KW then Ok (eh_alg h, eh_apu h, eh_apv h, 24)
+  else if bytes_eqb (eh_alg h) name_ECDH_ES_A256KW then Ok (eh_alg h, eh_apu h, eh_apv h, 32)
+  else Err e_alg.
+
+(* the OtherInfo the KDF hashes for a given header *)
+Definition ecdh_otherinfo (h : ecdh_hdr) (enc_keysize : N) : res bytes :=
+  let* p := ecdh_derive_input h enc_keysize in
+  let '(id, u, v, n) := p in Ok (kdf_info id u v n).
+
 (* ------------------------------------------------------------------ thumbprint templates *)
 Definition str (l : list N) : bytes := l.
 (* open-brace, quote e quote colon quote *)
@@ -956,7 +981,8 @@ Definition jwe_of_b64 (p k i c t : bytes) : res jwe_fields :=
    (31 len sha256 ...)            large payload (or large aad) round trip: the object verifies / decrypts to
                                   exactly the payload, reported as its length and SHA-256 (compression and
                                   the primitives are oracles; the payload itself stays out of the observation)
-                                  -> (0 len sha256)                                                  *)
+                                  -> (0 len sha256)
+   (32 alg enc apu apv enckeysize) ecDecrypterSigner.decryptKey: the OtherInfo its KDF hashes -> (0 otherinfo) | (1 1) *)
 (* abstract JSON objects in s-expression form (built by the harness with an independent
    encoding/json parse of the text): object = ((name value) ...), value = xSTRING | (1 header) |
    (2 (item ...)), header = ((name value) ...), item = ((name leaf) ...), leaf = xSTRING | (1 header);
@@ -1145,6 +1171,9 @@ Definition run_c16 (c : sx) : sx :=
       obs_jws_json (parse_jws_full (hdr_dec_tab (hdrtab_of_sx tab)) (obj_of_sx o))
   | SL (SZ 24 :: SL o :: SL tab :: _) =>
       obs_jwe_json (parse_jwe_full (hdr_dec_tab (hdrtab_of_sx tab)) (obj_of_sx o))
+  | SL (SZ 32 :: SB alg :: SB enc :: SB apu :: SB apv :: SZ ks :: _) =>
+      obs_res (let* oi := ecdh_otherinfo {| eh_alg := alg; eh_enc := enc; eh_apu := apu; eh_apv := apv |} (z2n ks) in
+               Ok [SB oi])
   | SL (SZ 31 :: SZ len :: SB digest :: _) => s_ok [SZ len; SB digest]
   | SL (SZ 30 :: SL objs :: SL ops :: _) => SL (SZ 0 :: hist_run (hobjs_of_sx objs) ops)
   | SL (SZ 19 :: SB iv :: SZ ns :: _) =>
